@@ -1846,4 +1846,516 @@ example : PoolValid dtEnv dtS.pool (canon dtEnv prG 1) :=
    ⟨0, by decide⟩, ⟨by decide, by decide, by decide⟩, absent_of_rows _ _ (by decide), by decide,
    ⟨0, by decide⟩, ⟨by decide, by decide, by decide⟩, absent_of_rows _ _ (by decide), by decide, trivial⟩
 
+-- ================================================================== the canonical state as a list of operations
+
+/-- the transactions confirmed on the chain of block `p`, root first -/
+def chainTxs (e : Env) (p : Nat) : List Nat :=
+  (ancestors e (e.blocks.length + 1) p).reverse.flatMap (fun bi => (e.block bi).txs)
+
+private def chainOps (e : Env) (l : List Nat) : List POp :=
+  l.flatMap (fun bi => blockOps (e.block bi).prop (e.block bi).txs)
+
+private theorem prun_tabEq (e : Env) (l : List POp) (s s' : St) (h : TabEq s s') :
+    TabEq (prun e l s) (prun e l s') := by
+  induction l generalizing s s' with
+  | nil => exact h
+  | cons a rest ih => exact ih _ _ (pstep_tabEq e s s' a h)
+
+private theorem replayChain_tabEq (e : Env) (l : List Nat) (s s' : St) (h : TabEq s s') :
+    TabEq (replayChain e l s) (prun e (chainOps e l) s') := by
+  induction l generalizing s s' with
+  | nil => exact h
+  | cons bi rest ih =>
+    rw [replayChain_cons]
+    unfold chainOps
+    rw [List.flatMap_cons, prun_append]
+    apply ih
+    have h1 : TabEq (replayBlock e s (e.block bi)) (replayTxs e (e.block bi).prop (e.block bi).txs s) :=
+      TabEq.of_tables (x := replayTxs e (e.block bi).prop (e.block bi).txs s) ⟨rfl, rfl, rfl, rfl⟩
+    rw [← prun_blockOps] at h1
+    exact h1.trans (prun_tabEq e _ s s' h)
+
+private theorem opId_chainOps (e : Env) (l : List Nat) :
+    ∀ op ∈ chainOps e l, opId op ∈ l.flatMap (fun bi => (e.block bi).txs) := by
+  intro op hop
+  unfold chainOps at hop
+  obtain ⟨bi, hbi, hop⟩ := List.mem_flatMap.mp hop
+  exact List.mem_flatMap.mpr ⟨bi, hbi, opId_blockOps _ _ op hop⟩
+
+private theorem chainValid_wf (e : Env) (l : List Nat) (r : St) (h : ChainValid e l r) :
+    ∀ i ∈ l.flatMap (fun bi => (e.block bi).txs), TxWF e i := by
+  induction l generalizing r with
+  | nil => intro i hi; simp at hi
+  | cons bi rest ih =>
+    intro i hi
+    rw [List.flatMap_cons] at hi
+    rcases List.mem_append.mp hi with h1 | h1
+    · exact h.1.wf i h1
+    · exact ih _ h.2 i h1
+
+private theorem canon_tabEq (e : Env) (g : St) (p : Nat) :
+    TabEq (canon e g p) (prun e (chainOps e (ancestors e (e.blocks.length + 1) p).reverse) g) :=
+  replayChain_tabEq e _ g g (TabEq.refl g)
+
+/-- a fresh identifier that is not confirmed on the chain of `p` names no row and no key version of the canonical state -/
+private theorem canon_fresh (e : Env) (g : St) (p i : Nat)
+    (hch : ChainValid e (ancestors e (e.blocks.length + 1) p).reverse g) (hf : IdFresh g i) (hni : i ∉ chainTxs e p) :
+    (∀ o, lookup (canon e g p).U (i, o) = none) ∧ (∀ k o, curVer (canon e g p) k ≠ some (i, o)) := by
+  have hT := canon_tabEq e g p
+  have hid : ∀ op ∈ chainOps e (ancestors e (e.blocks.length + 1) p).reverse, (e.tx (opId op)).id = opId op :=
+    fun op hop => (chainValid_wf e _ g hch _ (opId_chainOps e _ op hop)).id
+  constructor
+  · intro o
+    rw [hT.U]
+    apply prun_row_absent e _ g i o hid
+    · intro op hop h
+      exact hni (h ▸ opId_chainOps e _ op hop)
+    · exact absent_of_rows _ _ hf.1 o
+  · intro k o hc
+    rw [hT.curVer] at hc
+    rcases prun_curVer e _ g k hid with h | ⟨w, o', hw, h⟩
+    · rw [h] at hc
+      exact verFresh_of_rows g i hf.2.1 hf.2.2 k o hc
+    · rw [h] at hc
+      injection hc with hc
+      injection hc with hw1 _
+      apply hni
+      rw [← hw1]
+      exact opId_chainOps e _ _ hw
+
+private theorem canon_frozenInv (e : Env) (g : St) (p : Nat)
+    (hch : ChainValid e (ancestors e (e.blocks.length + 1) p).reverse g) (hf : FrozenInv e g) :
+    FrozenInv e (canon e g p) := by
+  apply FrozenInv_of_U e _ _ (canon_tabEq e g p).U
+  apply prun_FrozenInv e _ g _ hf
+  intro op hop
+  exact (txWF_iff e _).mp (chainValid_wf e _ g hch _ (opId_chainOps e _ op hop))
+
+/-- the ancestor list of a child is the child followed by the ancestor list of its parent -/
+private theorem ancestors_child (e : Env) (hpl : ParentLower e) (bi p : Nat) (hpre : (e.block bi).pre = some p) :
+    ancestors e (e.blocks.length + 1) bi = bi :: ancestors e (e.blocks.length + 1) p := by
+  have hk := block_known_of_pre e bi (by rw [hpre]; simp)
+  obtain ⟨m, hm⟩ : ∃ m, e.blocks.length = m + 1 := by
+    cases hb : e.blocks with
+    | nil => rw [hb] at hk; simp at hk
+    | cons x r => exact ⟨r.length, by simp⟩
+  obtain ⟨r, hr⟩ := ancestors_head e m p
+  have h1 : ancestors e (e.blocks.length + 1) bi = [bi] ++ p :: r := by
+    rw [ancestors_succ_some e _ bi p hpre, hm, hr]; rfl
+  have h2 := ancestors_tail_eq e hpl bi p [bi] r h1
+  rw [h1, h2]; rfl
+
+private theorem chainTxs_child (e : Env) (hpl : ParentLower e) (bi p : Nat) (hpre : (e.block bi).pre = some p) :
+    chainTxs e bi = chainTxs e p ++ (e.block bi).txs := by
+  unfold chainTxs
+  rw [ancestors_child e hpl bi p hpre, List.reverse_cons, List.flatMap_append]
+  simp
+
+private theorem blockValid_of_chain (e : Env) (g : St) (hpl : ParentLower e) (bi p : Nat)
+    (hpre : (e.block bi).pre = some p)
+    (hch : ChainValid e (ancestors e (e.blocks.length + 1) bi).reverse g) :
+    BlockValid e (canon e g p) (e.block bi) := by
+  rw [ancestors_child e hpl bi p hpre, List.reverse_cons] at hch
+  exact (chainValid_snoc e _ bi g hch).2
+
+-- ================================================================== the closing induction over histories
+
+/-- the hypotheses on the environment (static: they do not mention the node). Block tree with parent links strictly
+down in height; every registered block is known under its id; every chain of the tree can be replayed on a fresh
+node from the base state `g`, with the side conditions of the block theorem (`ChainValid`: the harness feeds blocks that
+replicas accept; that `play` alone does not guarantee this is `accepted_block_replayable_refuted` below); no transaction
+occurs twice on a chain; the ids of block transactions are fresh in `g`; `g` is well-formed and its rows carry the frozen
+heights their transactions declare. -/
+structure EnvOK (e : Env) (g : St) : Prop where
+  lower : ParentLower e
+  blockId : ∀ bi, bi ∈ e.blocks.map (·.1) → (e.block bi).id = bi
+  chains : ∀ bi, bi ∈ e.blocks.map (·.1) → ChainValid e (ancestors e (e.blocks.length + 1) bi).reverse g
+  chainNodup : ∀ bi, bi ∈ e.blocks.map (·.1) → (chainTxs e bi).Nodup
+  blockFresh : ∀ bi, bi ∈ e.blocks.map (·.1) → ∀ i ∈ (e.block bi).txs, IdFresh g i
+  kv : KVInv e g
+  frozen : FrozenInv e g
+
+/-- **the invariant of the closing induction**: the node points at a registered block; its tables refine the canonical
+state of that block (the replay of its chain on a fresh node) with the pending pool applied in admission order; the
+pool satisfies the side conditions of the transaction theorems there, has no repetition, contains no transaction that
+is confirmed on the chain, and its transactions cite declared frozen heights and have ids fresh in `g` -/
+structure Inv (e : Env) (g : St) (s : St) : Prop where
+  known : s.pointer ∈ e.blocks.map (·.1)
+  refines : TRefines s (applyPool e s.pool (canon e g s.pointer))
+  pool : PoolValid e s.pool (canon e g s.pointer)
+  nodup : s.pool.Nodup
+  disjoint : ∀ i ∈ s.pool, i ∉ chainTxs e s.pointer
+  static : ∀ i ∈ s.pool, StaticFrozen e i ∧ IdFresh g i
+
+/-- the operations of a history: a transaction is submitted, a block of a peer is played, the node's own block is
+played, the node walks to a block; `lh` is the ledger height the operation runs at (frozen outputs) -/
+inductive Op where
+  | submit (lh : Int) (i : Nat)
+  | play (lh : Int) (bi : Nat)
+  | playMiner (lh : Int) (bi : Nat)
+  | walk (lh : Int) (dest : Nat) (prune : Bool := false)
+deriving Repr, DecidableEq
+
+/-- one operation of the model; a refused submission / block leaves the state as it is (C05) -/
+def step (e : Env) (s : St) : Op → St
+  | .submit lh i => (doTx e s lh i).1
+  | .play lh bi => (play e s lh (e.block bi)).1
+  | .playMiner lh bi => (playForMiner e s lh (e.block bi)).1
+  | .walk lh dest prune => (walk e s lh dest prune).1
+
+def run (e : Env) (s : St) (ops : List Op) : St := ops.foldl (step e) s
+
+/-- what is asked of one operation of a history, in the state it is applied to (everything else follows from `EnvOK`
+and the invariant). A submitted transaction that is ACCEPTED is well-formed, cites declared frozen heights, has a fresh
+id and is not already confirmed on the node's chain. Nothing is asked of a peer's block. The node's own block, if
+accepted: coinbase transactions new and without key writes, the others pending, a prefix of the pool. A walk reports
+success, goes to a registered block, and no transaction it re-admits is confirmed on the destination's chain. -/
+def OpOK (e : Env) (g : St) (s : St) : Op → Prop
+  | .submit lh i => (doTx e s lh i).2 = .ok →
+      TxWF e i ∧ StaticFrozen e i ∧ IdFresh g i ∧ i ∉ chainTxs e s.pointer
+  | .play _ _ => True
+  | .playMiner lh bi => (playForMiner e s lh (e.block bi)).2 = .ok →
+      (∀ i ∈ (e.block bi).txs, (e.tx i).coinbase = false → i ∈ s.pool) ∧
+      (∀ i ∈ (e.block bi).txs, (e.tx i).coinbase = true → i ∉ s.pool ∧ (e.tx i).kout = []) ∧
+      (∀ a ∈ s.pool, a ∉ (e.block bi).txs → ∀ i ∈ (e.block bi).txs, i ∈ s.pool → [i, a].Sublist s.pool)
+  | .walk lh dest prune => (walk e s lh dest prune).2 = true ∧ dest ∈ e.blocks.map (·.1) ∧
+      ∀ i ∈ (walk e s lh dest prune).1.pool, i ∉ chainTxs e dest
+
+/-- `OpOK` for every operation of the history, each in the state it is applied to -/
+def HistOK (e : Env) (g : St) : St → List Op → Prop
+  | _, [] => True
+  | s, op :: rest => OpOK e g s op ∧ HistOK e g (step e s op) rest
+
+private theorem Inv.freshU {e : Env} {g s : St} (he : EnvOK e g) (h : Inv e g s) :
+    ∀ i ∈ s.pool, ∀ o, lookup (canon e g s.pointer).U (i, o) = none :=
+  fun i hi => (canon_fresh e g s.pointer i (he.chains _ h.known) (h.static i hi).2 (h.disjoint i hi)).1
+
+private theorem inv_submit (e : Env) (g s : St) (lh : Int) (i : Nat) (he : EnvOK e g) (h : Inv e g s)
+    (hop : OpOK e g s (.submit lh i)) : Inv e g (doTx e s lh i).1 := by
+  have hch := he.chains _ h.known
+  obtain ⟨a1, a2, a3, a4, a5⟩ := doTx_refines e s lh i (canon e g s.pointer) h.refines h.pool h.nodup
+    (canon_frozenInv e g _ hch he.frozen)
+    (fun hok => by
+      obtain ⟨w, sf, fr, ni⟩ := hop hok
+      exact ⟨w, sf, (canon_fresh e g s.pointer i hch fr ni).1⟩)
+  have hmem : ∀ j ∈ (doTx e s lh i).1.pool, j ∈ s.pool ∨ (j = i ∧ (doTx e s lh i).2 = .ok) := by
+    intro j hj
+    by_cases hok : (doTx e s lh i).2 = .ok
+    · rcases a5 with h5 | h5
+      · rw [h5] at hj; exact Or.inl hj
+      · rw [h5] at hj
+        rcases List.mem_append.mp hj with h6 | h6
+        · exact Or.inl h6
+        · simp only [List.mem_cons, List.not_mem_nil, or_false] at h6; exact Or.inr ⟨h6, hok⟩
+    · rw [XV.C05.doTx_fail_noop e s lh i hok] at hj; exact Or.inl hj
+  refine ⟨by rw [a4]; exact h.known, by rw [a4]; exact a1, by rw [a4]; exact a2, a3, ?_, ?_⟩
+  · intro j hj
+    rw [a4]
+    rcases hmem j hj with h1 | ⟨rfl, hok⟩
+    · exact h.disjoint j h1
+    · exact (hop hok).2.2.2
+  · intro j hj
+    rcases hmem j hj with h1 | ⟨rfl, hok⟩
+    · exact h.static j h1
+    · exact ⟨(hop hok).2.1, (hop hok).2.2.1⟩
+
+/-- what the invariant and `EnvOK` give for a block `bi` whose parent is the tip -/
+private theorem inv_block_facts (e : Env) (g s : St) (bi : Nat) (he : EnvOK e g) (h : Inv e g s)
+    (hpre : (e.block bi).pre = some s.pointer) :
+    bi ∈ e.blocks.map (·.1) ∧ e.block (e.block bi).id = e.block bi ∧
+    BlockValid e (canon e g s.pointer) (e.block bi) ∧
+    chainTxs e bi = chainTxs e s.pointer ++ (e.block bi).txs ∧
+    (∀ i ∈ s.pool ++ (e.block bi).txs, ∀ k o, curVer (canon e g s.pointer) k ≠ some (i, o)) := by
+  have hk := block_known_of_pre e bi (by rw [hpre]; simp)
+  have hct := chainTxs_child e he.lower bi s.pointer hpre
+  have hnd := he.chainNodup bi hk
+  rw [hct] at hnd
+  refine ⟨hk, by rw [he.blockId bi hk], blockValid_of_chain e g he.lower bi s.pointer hpre (he.chains bi hk), hct, ?_⟩
+  intro i hi
+  have hch := he.chains _ h.known
+  rcases List.mem_append.mp hi with h1 | h1
+  · exact (canon_fresh e g s.pointer i hch (h.static i h1).2 (h.disjoint i h1)).2
+  · exact (canon_fresh e g s.pointer i hch (he.blockFresh bi hk i h1)
+      (fun hm => (List.nodup_append.mp hnd).2.2 i hm i h1 rfl)).2
+
+private theorem play_pre (e : Env) (s : St) (lh : Int) (b : Block) (hok : (play e s lh b).2 = .ok) :
+    b.pre = some s.pointer := by
+  unfold play at hok
+  by_cases h1 : b.pre ≠ some s.pointer
+  · rw [if_pos h1] at hok; cases hok
+  · simpa using h1
+
+private theorem inv_play (e : Env) (g s : St) (lh : Int) (bi : Nat) (he : EnvOK e g) (h : Inv e g s) :
+    Inv e g (play e s lh (e.block bi)).1 := by
+  by_cases hok : (play e s lh (e.block bi)).2 = .ok
+  · have hpre := play_pre e s lh _ hok
+    obtain ⟨hk, hb, hblk, hct, hfv⟩ := inv_block_facts e g s bi he h hpre
+    have hch := he.chains _ h.known
+    obtain ⟨a1, a2, a3, a4⟩ := play_refines e s lh (e.block bi) g he.lower hb hok he.kv hch hblk h.pool h.nodup
+      h.refines (h.freshU he) hfv (canon_frozenInv e g _ hch he.frozen) (fun i hi => (h.static i hi).1)
+    have hid := he.blockId bi hk
+    have hmem : ∀ j ∈ (play e s lh (e.block bi)).1.pool, j ∈ s.pool ∧ j ∉ (e.block bi).txs := by
+      intro j hj
+      rw [a4] at hj
+      obtain ⟨h1, h2⟩ := List.mem_filter.mp hj
+      simp only [Bool.and_eq_true, Bool.not_eq_true', List.contains_eq_mem, decide_eq_false_iff_not] at h2
+      exact ⟨h1, h2.1⟩
+    refine ⟨by rw [a1, hid]; exact hk, by rw [a1]; exact a2, by rw [a1]; exact a3, ?_, ?_, ?_⟩
+    · rw [a4]; exact List.Nodup.sublist List.filter_sublist h.nodup
+    · intro j hj hm
+      rw [a1, hid, hct] at hm
+      rcases List.mem_append.mp hm with h1 | h1
+      · exact h.disjoint j (hmem j hj).1 h1
+      · exact (hmem j hj).2 h1
+    · exact fun j hj => h.static j (hmem j hj).1
+  · rw [XV.C05.play_fail_noop e s lh _ hok]; exact h
+
+private theorem inv_playMiner (e : Env) (g s : St) (lh : Int) (bi : Nat) (he : EnvOK e g) (h : Inv e g s)
+    (hop : OpOK e g s (.playMiner lh bi)) : Inv e g (playForMiner e s lh (e.block bi)).1 := by
+  by_cases hok : (playForMiner e s lh (e.block bi)).2 = .ok
+  · have hpre := (playForMiner_ok_raw e s lh _ hok).1
+    obtain ⟨hk, hb, hblk, hct, hfv⟩ := inv_block_facts e g s bi he h hpre
+    have hch := he.chains _ h.known
+    obtain ⟨o1, o2, o3⟩ := hop hok
+    obtain ⟨a1, a2, a3, a4⟩ := playForMiner_refines e s lh (e.block bi) g he.lower hb hok hblk h.pool h.nodup
+      h.refines (h.freshU he) hfv (canon_frozenInv e g _ hch he.frozen) (fun i hi => (h.static i hi).1) o1 o2 o3
+    have hid := he.blockId bi hk
+    have hmem : ∀ j ∈ (playForMiner e s lh (e.block bi)).1.pool, j ∈ s.pool ∧ j ∉ (e.block bi).txs := by
+      intro j hj
+      rw [a4] at hj
+      obtain ⟨h1, h2⟩ := List.mem_filter.mp hj
+      simp only [Bool.not_eq_true', List.contains_eq_mem, decide_eq_false_iff_not] at h2
+      exact ⟨h1, h2⟩
+    refine ⟨by rw [a1, hid]; exact hk, by rw [a1]; exact a2, by rw [a1]; exact a3, ?_, ?_, ?_⟩
+    · rw [a4]; exact List.Nodup.sublist List.filter_sublist h.nodup
+    · intro j hj hm
+      rw [a1, hid, hct] at hm
+      rcases List.mem_append.mp hm with h1 | h1
+      · exact h.disjoint j (hmem j hj).1 h1
+      · exact (hmem j hj).2 h1
+    · exact fun j hj => h.static j (hmem j hj).1
+  · rw [XV.C05.playForMiner_fail_noop e s lh _ hok]; exact h
+
+private theorem doTx_pool_cases (e : Env) (s : St) (lh : Int) (i : Nat) :
+    (doTx e s lh i).1.pool = s.pool ∨ ((doTx e s lh i).2 = .ok ∧ (doTx e s lh i).1.pool = s.pool ++ [i]) := by
+  by_cases hok : (doTx e s lh i).2 = .ok
+  · right
+    obtain ⟨_, _, hs'⟩ := XV.C03.doTx_ok e s lh i hok
+    exact ⟨hok, by rw [hs']⟩
+  · left; rw [XV.C05.doTx_fail_noop e s lh i hok]
+
+private theorem foldl_doTx_pool_sub (e : Env) (lh : Int) (l : List Nat) (st : St) :
+    ∀ j ∈ (l.foldl (fun st i => (doTx e st lh i).1) st).pool, j ∈ st.pool ∨ j ∈ l := by
+  induction l generalizing st with
+  | nil => intro j hj; exact Or.inl hj
+  | cons i rest ih =>
+    intro j hj
+    simp only [List.foldl_cons] at hj
+    rcases ih _ j hj with h | h
+    · rcases doTx_pool_cases e st lh i with h5 | ⟨_, h5⟩
+      · rw [h5] at h; exact Or.inl h
+      · rw [h5] at h
+        rcases List.mem_append.mp h with h6 | h6
+        · exact Or.inl h6
+        · simp only [List.mem_cons, List.not_mem_nil, or_false] at h6
+          exact Or.inr (by rw [h6]; exact List.mem_cons_self)
+    · exact Or.inr (List.mem_cons_of_mem _ h)
+
+private theorem foldl_doTx_pool_mono (e : Env) (lh : Int) (l : List Nat) (st : St) :
+    ∀ j ∈ st.pool, j ∈ (l.foldl (fun st i => (doTx e st lh i).1) st).pool := by
+  induction l generalizing st with
+  | nil => intro j hj; exact hj
+  | cons i rest ih =>
+    intro j hj
+    simp only [List.foldl_cons]
+    apply ih
+    rcases doTx_pool_cases e st lh i with h5 | ⟨_, h5⟩
+    · rw [h5]; exact hj
+    · rw [h5]; exact List.mem_append_left _ hj
+
+/-- the re-admission loop of `walk` (`recoverUnconfirmedTx`) keeps "the state refines `C` + pool" and `PoolValid`,
+provided the transactions that end up pending have no row in `C` -/
+private theorem readmit_inv (e : Env) (lh : Int) (C : St) (hfz : FrozenInv e C) :
+    ∀ (l : List Nat) (st : St), TRefines st (applyPool e st.pool C) → PoolValid e st.pool C → st.pool.Nodup →
+      (∀ i ∈ l, TxWF e i ∧ StaticFrozen e i) →
+      (∀ j ∈ (l.foldl (fun st i => (doTx e st lh i).1) st).pool, j ∈ st.pool ∨ ∀ o, lookup C.U (j, o) = none) →
+      TRefines (l.foldl (fun st i => (doTx e st lh i).1) st)
+        (applyPool e (l.foldl (fun st i => (doTx e st lh i).1) st).pool C) ∧
+      PoolValid e (l.foldl (fun st i => (doTx e st lh i).1) st).pool C ∧
+      (l.foldl (fun st i => (doTx e st lh i).1) st).pool.Nodup := by
+  intro l
+  induction l with
+  | nil => intro st h1 h2 h3 _ _; exact ⟨h1, h2, h3⟩
+  | cons i rest ih =>
+    intro st h1 h2 h3 hst hfin
+    simp only [List.foldl_cons] at hfin ⊢
+    obtain ⟨a1, a2, a3, _, _⟩ := doTx_refines e st lh i C h1 h2 h3 hfz (fun hok => by
+      obtain ⟨hnp, _, hs'⟩ := XV.C03.doTx_ok e st lh i hok
+      refine ⟨(hst i List.mem_cons_self).1, (hst i List.mem_cons_self).2, ?_⟩
+      have hi1 : i ∈ (doTx e st lh i).1.pool := by rw [hs']; simp
+      rcases hfin i (foldl_doTx_pool_mono e lh rest _ i hi1) with h | h
+      · exact absurd h hnp
+      · exact h)
+    apply ih _ a1 a2 a3 (fun j hj => hst j (List.mem_cons_of_mem _ hj))
+    intro j hj
+    rcases hfin j hj with h | h
+    · left
+      rcases doTx_pool_cases e st lh i with h5 | ⟨_, h5⟩
+      · rw [h5]; exact h
+      · rw [h5]; exact List.mem_append_left _ h
+    · exact Or.inr h
+
+private theorem inv_walk (e : Env) (g s : St) (lh : Int) (dest : Nat) (prune : Bool) (he : EnvOK e g) (h : Inv e g s)
+    (hop : OpOK e g s (.walk lh dest prune)) : Inv e g (walk e s lh dest prune).1 := by
+  obtain ⟨hok, hdest, hni⟩ := hop
+  have hchain := he.chains _ h.known
+  have hchd := he.chains _ hdest
+  have hpt := walk_reaches_any e s lh dest prune he.lower (he.blockId dest hdest) hok
+  have hpool := h.pool
+  have hs := h.refines
+  obtain ⟨pre, h1, h2, h3⟩ := canon_split e g s.pointer dest he.lower
+  rw [h1] at hchain
+  obtain ⟨c1, c2⟩ := chainValid_append e pre _ g hchain
+  rw [h2] at hpool hs
+  obtain ⟨s2, t1, t2, t3⟩ := walk_refines e s lh dest prune (replayChain e pre g) hok
+    (replayChain_KVInv e pre g c1 he.kv) c2 hpool hs
+  rw [← h3] at t1
+  have hwfP := ((poolValid_iff e _ _).mp h.pool).wf
+  have hsub := foldl_doTx_pool_sub e lh s.pool s2
+  rw [t2] at hsub
+  have hmem : ∀ j ∈ (walk e s lh dest prune).1.pool, j ∈ s.pool := by
+    intro j hj
+    rw [t3] at hj
+    rcases hsub j hj with h5 | h5
+    · cases h5
+    · exact h5
+  obtain ⟨r1, r2, r3⟩ := readmit_inv e lh (canon e g dest) (canon_frozenInv e g dest hchd he.frozen) s.pool s2
+    (by rw [t2]; exact t1) (by rw [t2]; trivial) (by rw [t2]; exact List.nodup_nil)
+    (fun i hi => ⟨(txWF_iff e i).mpr (hwfP i hi), (h.static i hi).1⟩)
+    (fun j hj => by
+      right
+      rw [← t3] at hj
+      exact (canon_fresh e g dest j hchd (h.static j (hmem j hj)).2 (hni j hj)).1)
+  rw [← t3] at r1 r2 r3
+  refine ⟨by rw [hpt]; exact hdest, by rw [hpt]; exact r1, by rw [hpt]; exact r2, r3, ?_, ?_⟩
+  · rw [hpt]; exact hni
+  · exact fun j hj => h.static j (hmem j hj)
+
+/-- one operation keeps the invariant -/
+theorem step_invariant (e : Env) (g s : St) (op : Op) (he : EnvOK e g) (h : Inv e g s) (hop : OpOK e g s op) :
+    Inv e g (step e s op) := by
+  cases op with
+  | submit lh i => exact inv_submit e g s lh i he h hop
+  | play lh bi => exact inv_play e g s lh bi he h
+  | playMiner lh bi => exact inv_playMiner e g s lh bi he h hop
+  | walk lh dest prune => exact inv_walk e g s lh dest prune he h hop
+
+/-- **the closing induction: after ANY history the node is on "canonical state of its tip + pool".** Environment as in
+`EnvOK`; start state with the invariant (`genesis_inv`: the canonical state of a registered block with an empty pool —
+in particular the genesis state); a history of submissions, peers' blocks, own blocks and walks across forks, in any
+order and of any length, each operation as in `OpOK`. Then the final state points at a registered block `B` and its
+observable tables — every UTXO row, the version of every key, the total supply — are those of the replay of the chain
+genesis..`B` on a fresh node followed by the pending pool applied in admission order (`TRefines`: plus the live key table
+row by row and no recycle row that the replay does not have); and the pool is again valid there. -/
+theorem chain_refines (e : Env) (g s0 : St) (ops : List Op) (he : EnvOK e g) (h0 : Inv e g s0)
+    (hh : HistOK e g s0 ops) : Inv e g (run e s0 ops) := by
+  induction ops generalizing s0 with
+  | nil => exact h0
+  | cons op rest ih =>
+    obtain ⟨h1, h2⟩ := hh
+    exact ih (step e s0 op) (step_invariant e g s0 op he h0 h1) h2
+
+/-- the canonical state of a registered block, with an empty pool, satisfies the invariant -/
+theorem genesis_inv (e : Env) (g : St) (p : Nat) (hp : p ∈ e.blocks.map (·.1)) :
+    Inv e g { canon e g p with pool := [], pointer := p } :=
+  ⟨hp, (TRefines.refl _).of_tables ⟨rfl, rfl, rfl, rfl⟩ ⟨rfl, rfl, rfl, rfl⟩, trivial, List.nodup_nil,
+    (fun _ hi => by cases hi), (fun _ hi => by cases hi)⟩
+
+/-- the observable reading of the invariant: same UTXO rows, same version of every key, same total as the replay of
+the chain of the tip followed by the pool -/
+theorem chain_observables (e : Env) (g s0 : St) (ops : List Op) (he : EnvOK e g) (h0 : Inv e g s0)
+    (hh : HistOK e g s0 ops) :
+    (run e s0 ops).pointer ∈ e.blocks.map (·.1) ∧
+    ObsT (run e s0 ops) (applyPool e (run e s0 ops).pool (canon e g (run e s0 ops).pointer)) :=
+  ⟨(chain_refines e g s0 ops he h0 hh).known, (chain_refines e g s0 ops he h0 hh).refines.obs⟩
+
+-- ------------------------------------------------------------------ checkable forms, for concrete environments
+
+instance (e : Env) (i : Nat) : Decidable (TxWF e i) :=
+  decidable_of_iff ((e.tx i).id = i ∧ (∀ r ∈ (e.tx i).ins, r.tx ≠ i) ∧ koutDistinct (e.tx i))
+    ⟨fun ⟨a, b, c⟩ => ⟨a, b, c⟩, fun h => ⟨h.id, h.self, h.kout⟩⟩
+
+/-- checkable form of `BlockValid`, at ledger height `lh` -/
+def BlockCheck (e : Env) (lh : Int) (r : St) (b : Block) : Prop :=
+  (applyBlockTxs e lh b.prop [] b.txs r).map (·.2) = some .ok ∧ (∀ i ∈ b.txs, TxWF e i) ∧ b.txs.Nodup ∧
+  (∀ i ∈ b.txs, ∀ p ∈ r.U, p.1.1 ≠ i) ∧ FrozenAlong e b.prop b.txs r
+
+instance (e : Env) (lh : Int) (r : St) (b : Block) : Decidable (BlockCheck e lh r b) := by
+  unfold BlockCheck; exact inferInstance
+
+/-- checkable form of `ChainValid` -/
+def ChainCheck (e : Env) (lh : Int) : List Nat → St → Prop
+  | [], _ => True
+  | bi :: rest, r => BlockCheck e lh r (e.block bi) ∧ ChainCheck e lh rest (replayBlock e r (e.block bi))
+
+instance decChainCheck (e : Env) (lh : Int) : (l : List Nat) → (r : St) → Decidable (ChainCheck e lh l r)
+  | [], _ => isTrue trivial
+  | bi :: rest, r =>
+    have := decChainCheck e lh rest (replayBlock e r (e.block bi))
+    by unfold ChainCheck; exact inferInstance
+
+private theorem chainValid_of_check (e : Env) (lh : Int) (l : List Nat) (r : St) (h : ChainCheck e lh l r) :
+    ChainValid e l r := by
+  induction l generalizing r with
+  | nil => trivial
+  | cons bi rest ih =>
+    obtain ⟨⟨h1, h2, h3, h4, h5⟩, hr⟩ := h
+    exact ⟨⟨⟨lh, fwd_of_res _ _ _ _ _ h1⟩, h2, h3, fun i hi => absent_of_rows _ _ (h4 i hi), h5⟩, ih _ hr⟩
+
+instance (e : Env) (g s : St) (op : Op) : Decidable (OpOK e g s op) := by
+  cases op <;> (unfold OpOK; exact inferInstance)
+
+instance decHistOK (e : Env) (g : St) : (s : St) → (ops : List Op) → Decidable (HistOK e g s ops)
+  | _, [] => isTrue trivial
+  | s, op :: rest =>
+    have := decHistOK e g (step e s op) rest
+    by unfold HistOK; exact inferInstance
+
+-- non-vacuity of `chain_refines`: genesis rows (0,0) (0,1) (0,2); blocks 2 and 3 are both children of block 1, block 4
+-- a child of block 2. The history: five submissions (one more is refused: already pending), the peer's block 2 with a
+-- non-empty pool (two evictions, one pending member confirmed, two survivors), a refused block (3: not a child of the
+-- tip), a submission on top of the survivors, a walk across the fork to block 3 (which confirms 21 and 22: 22 is not
+-- re-admitted), a walk back to block 2, a refused submission (24: its input is spent), and the node's own block 4 packing
+-- the whole pool.
+private def hsEnv : Env := {
+  txs := prEnv.txs ++ [
+    (27, ⟨27, false, [⟨23, 0, "u3", 4, 0, false⟩], [⟨"u7", 3, 0⟩, ⟨"$", 1, 0⟩], [], []⟩),
+    (30, ⟨30, true, [], [⟨"m3", 10, 0⟩], [], []⟩),
+    (40, ⟨40, true, [], [⟨"m4", 10, 0⟩], [], []⟩)],
+  blocks := prEnv.blocks ++ [(3, ⟨3, some 1, 2, [30, 21, 22], "m3"⟩), (4, ⟨4, some 2, 3, [40, 23, 27], "m4"⟩)] }
+private def hsS0 : St := { canon hsEnv prG 1 with pool := [], pointer := 1 }
+private def hsOps : List Op := [
+  .submit 0 21, .submit 0 22, .submit 0 21, .submit 0 23, .submit 0 24, .submit 0 26,
+  .play 0 2, .play 0 3, .submit 0 27, .walk 0 3, .walk 0 2, .submit 0 24, .playMiner 0 4]
+
+private theorem hsEnvOK : EnvOK hsEnv prG := by
+  refine ⟨parentLower_of_blocks _ (by decide), by decide, ?_, by decide, by decide, KVInv_empty _ _ rfl rfl,
+    frozenInv_of_rows _ _ (by decide)⟩
+  intro bi hbi
+  apply chainValid_of_check _ 0
+  revert bi hbi
+  decide
+
+example : EnvOK hsEnv prG := hsEnvOK
+example : Inv hsEnv prG hsS0 := genesis_inv hsEnv prG 1 (by decide)
+example : HistOK hsEnv prG hsS0 hsOps := by decide
+-- the conclusion, computed: the node is at block 4 with an empty pool and shows the tables of the chain 1 2 4
+example :
+    let s := run hsEnv hsS0 hsOps
+    let c := canon hsEnv prG 4
+    s.pointer = 4 ∧ s.pool = [] ∧ s.total = c.total ∧ (∀ k ∈ ["k", "j"], lookup s.ZU k = lookup c.ZU k) ∧
+    (∀ k ∈ s.U.map (·.1) ++ c.U.map (·.1), lookup s.U k = lookup c.U k) ∧
+    (run hsEnv hsS0 (hsOps.take 7)).pool = [22, 23] ∧ (run hsEnv hsS0 (hsOps.take 10)).pool = [23, 27] ∧
+    (run hsEnv hsS0 (hsOps.take 10)).pointer = 3 := by decide
+
 end XV.C01
